@@ -112,7 +112,7 @@ def fresh_lines(m, cfg, solve, rnd):
 
 
 WARM_KINDS = [("change_bound", 10), ("change_bounds", 4), ("change_objcoef", 5), ("change_rhscoef", 4), ("change_objsense", 1),
-              ("new_col", 1), ("add_col", 2)]
+              ("new_col", 1), ("add_col", 2), ("add_row", 2), ("add_rows", 1), ("new_row", 1)]
 RSOLVES = ["opt_primal p0", "opt_dual p0"]
 
 
